@@ -369,20 +369,63 @@ theorem kku_entry_aux (num0 n : Nat) (E : List Nat) (h : E.Pairwise (· < ·)) (
     toFun_filter (fun e => decide (e.1 < num0)) k i (up E j) (fun r _ => decide (r < num0)) (fun _ => rfl)]
   simp
 
-theorem kkk_entry_aux (num0 n : Nat) (E : List Nat) (h : E.Pairwise (· < ·)) (k : Coo K) (i j : Nat) :
+/-- entry of the block `[np.ix_(ex, ex)]` for a duplicate-free `ex` below `num0` -/
+theorem toFun_takeBlock (num0 : Nat) (ex : List Nat) (hnd : ex.Nodup) (hnum : ∀ e ∈ ex, e < num0) (k : Coo K)
+    (i j : Nat) :
+    (takeBlock num0 ex k).toFun i j =
+      if h : i < ex.length ∧ j < ex.length then k.toFun (ex[i]'h.1) (ex[j]'h.2) else 0 := by
+  unfold takeBlock
+  induction k with
+  | nil => simp [Coo.toFun]
+  | cons e l ih =>
+    rw [List.filter_cons]
+    by_cases hp : (decide (e.1 < num0) && decide (e.2.1 < num0) && decide (e.1 ∈ ex) && decide (e.2.1 ∈ ex)) = true
+    · rw [if_pos hp, List.map_cons, toFun_cons, ih]
+      simp only [Bool.and_eq_true, decide_eq_true_eq] at hp
+      obtain ⟨⟨⟨_, _⟩, hr⟩, hc⟩ := hp
+      by_cases h : i < ex.length ∧ j < ex.length
+      · rw [dif_pos h, dif_pos h, toFun_cons]
+        congr 1
+        have e1 : ex.idxOf e.1 = i ↔ e.1 = ex[i]'h.1 := by
+          constructor
+          · intro hh; subst hh; simp
+          · intro hh; rw [hh]; exact hnd.idxOf_getElem i h.1
+        have e2 : ex.idxOf e.2.1 = j ↔ e.2.1 = ex[j]'h.2 := by
+          constructor
+          · intro hh; subst hh; simp
+          · intro hh; rw [hh]; exact hnd.idxOf_getElem j h.2
+        simp only [e1, e2]
+      · rw [dif_neg h, dif_neg h, add_zero]
+        have : ¬ (ex.idxOf e.1 = i ∧ ex.idxOf e.2.1 = j) := by
+          rintro ⟨h1, h2⟩
+          exact h ⟨h1 ▸ List.idxOf_lt_length_of_mem hr, h2 ▸ List.idxOf_lt_length_of_mem hc⟩
+        rw [if_neg this]
+    · rw [if_neg hp, ih]
+      by_cases h : i < ex.length ∧ j < ex.length
+      · rw [dif_pos h, dif_pos h, toFun_cons]
+        have : ¬ (e.1 = ex[i]'h.1 ∧ e.2.1 = ex[j]'h.2) := by
+          rintro ⟨h1, h2⟩
+          apply hp
+          have m1 : e.1 ∈ ex := h1 ▸ List.getElem_mem h.1
+          have m2 : e.2.1 ∈ ex := h2 ▸ List.getElem_mem h.2
+          simp [m1, m2, hnum _ m1, hnum _ m2]
+        rw [if_neg this, zero_add]
+      · rw [dif_neg h, dif_neg h]
+
+/-- `kkk` is the prescribed-prescribed block `K[E, E]` (after the repair `fix: … returns the prescribed-prescribed
+block as kkk`) -/
+theorem kkk_entry_aux (num0 n : Nat) (E : List Nat) (h : E.Pairwise (· < ·)) (hnum : ∀ e ∈ E, e < num0) (k : Coo K)
+    (i j : Nat) :
     (excludeDofsMatrix num0 E n k).kkk.toFun i j =
-      if up E i < num0 ∧ up E j < num0 then k.toFun (up E i) (up E j) else 0 := by
-  show (dropCols (sortDesc E) (dropRows (sortDesc E)
-    (k.filter fun e => decide (e.1 < num0) && decide (e.2.1 < num0)))).toFun i j = _
-  rw [toFun_dropCols, toFun_dropRows, upD_sortDesc h, upD_sortDesc h,
-    toFun_filter (fun e => decide (e.1 < num0) && decide (e.2.1 < num0)) k (up E i) (up E j)
-      (fun r c => decide (r < num0) && decide (c < num0)) (fun _ => rfl)]
-  simp
+      if h : i < E.length ∧ j < E.length then k.toFun (E[i]'h.1) (E[j]'h.2) else 0 := by
+  show (takeBlock num0 (sortAsc E) k).toFun i j = _
+  rw [sortAsc_of_ascending h]
+  exact toFun_takeBlock num0 E (h.imp (fun hab => Nat.ne_of_lt hab)) hnum k i j
 
 theorem shapes_aux (num0 n : Nat) (E : List Nat) (k : Coo K) :
     let b := excludeDofsMatrix num0 E n k
     b.shapeUU = (n - E.length, n - E.length) ∧ b.shapeUK = (n - E.length, num0) ∧
-      b.shapeKU = (num0, n - E.length) ∧ b.shapeKK = (num0 - E.length, num0 - E.length) := by
+      b.shapeKU = (num0, n - E.length) ∧ b.shapeKK = (E.length, E.length) := by
   simp [excludeDofsMatrix]
 
 end blocks
@@ -1008,8 +1051,8 @@ theorem pointTerm_spec (E : List Nat) (hasc : E.Pairwise (· < ·)) (size dofs :
     simp only [hgeq, List.getD_cons_zero, List.getD_cons_succ]
     ring
 
-/-- closed form of entry `i` of `calc_fext(inc)` -/
-def fextSpec (a : FextIn K) (i : Nat) : K :=
+/-- closed form of entry `i` of `calc_fext(inc)` before the load-asymmetry block -/
+def fextSpecCore (a : FextIn K) (i : Nat) : K :=
   (a.forces.map fun f => pointRow f (up a.E i)).sum + a.inc * (a.forcesInc.map fun f => pointRow f (up a.E i)).sum
   + tmpSpec a (a.P + a.inc * a.Pinc) (up a.E i)
   - (if 0 ∈ a.E then a.inc * a.uTM * a.k0uk.toFun i 0 else 0)
@@ -1031,8 +1074,8 @@ theorem up_lt_size {E : List Nat} (hasc : E.Pairwise (· < ·)) (size : Nat) (hb
     rw [up_append_singleton]
     unfold skip; split_ifs <;> omega
 
-theorem calcFext_spec (a : FextIn K) (hw : WF a) (f : List K) (h : calcFext a = .ok f) :
-    f.length = a.size - a.E.length ∧ ∀ i, i < a.size - a.E.length → f.getD i 0 = fextSpec a i := by
+theorem calcFextCore_spec (a : FextIn K) (hw : WF a) (f : List K) (h : calcFextCore a = .ok f) :
+    f.length = a.size - a.E.length ∧ ∀ i, i < a.size - a.E.length → f.getD i 0 = fextSpecCore a i := by
   obtain ⟨hasc, hb, hd, hforces, hg00⟩ := hw
   set nu := a.size - a.E.length with hnu
   -- the pieces
@@ -1086,7 +1129,7 @@ theorem calcFext_spec (a : FextIn K) (hw : WF a) (f : List K) (h : calcFext a = 
       ring
     · rw [if_pos h0, if_neg h0, sub_zero]
   -- unfold the definition
-  unfold calcFext at h
+  unfold calcFextCore at h
   simp only [] at h
   rw [← hnu, ← hf1, ← hf2, ← hf3] at h
   split_ifs at h with herr hT hT0
@@ -1101,22 +1144,53 @@ theorem calcFext_spec (a : FextIn K) (hw : WF a) (f : List K) (h : calcFext a = 
   · -- pdT
     refine ⟨by rw [vadd_length, l4], fun i hi => ?_⟩
     rw [vadd_getD _ _ _ (by rw [l4]; exact hi), v4 i hi, v3 i hi, v2 i hi, vsmul_getD, column_getD _ _ _ _ hi]
-    unfold fextSpec
+    unfold fextSpecCore
     rw [if_pos hT]
     ring
   · -- torque as a point force
     refine ⟨by rw [vadd_length, l4], fun i hi => ?_⟩
     rw [vadd_getD _ _ _ (by rw [l4]; exact hi), v4 i hi, v3 i hi, v2 i hi,
       (pointTerm_spec a.E hasc a.size a.dofs hb hd 1 ⟨0, (a.T + a.inc * a.Tinc) / a.r2, 0, a.g00⟩ hg00).2 i hi]
-    unfold fextSpec pointRow
+    unfold fextSpecCore pointRow
     rw [if_neg hT]
     ring
   · refine ⟨l4, fun i hi => ?_⟩
     rw [v4 i hi, v3 i hi, v2 i hi]
-    unfold fextSpec
+    unfold fextSpecCore
     have : a.T + a.inc * a.Tinc = 0 := by simpa using hT0
     rw [if_neg hT, this]
     ring
+
+/-- closed form of entry `i` of `calc_fext(inc)`: the core plus the load-asymmetry term `−inc·LA·K_uk[i, 2]` -/
+def fextSpec (a : FextIn K) (i : Nat) : K :=
+  fextSpecCore a i - (if 2 ∈ a.E then a.inc * a.LA * a.k0uk.toFun i 2 else 0)
+
+theorem calcFext_spec (a : FextIn K) (hw : WF a) (f : List K) (h : calcFext a = .ok f) :
+    f.length = a.size - a.E.length ∧ ∀ i, i < a.size - a.E.length → f.getD i 0 = fextSpec a i := by
+  unfold calcFext at h
+  cases hc : calcFextCore a with
+  | error e => rw [hc] at h; simp at h
+  | ok g =>
+    rw [hc] at h
+    obtain ⟨hl, hv⟩ := calcFextCore_spec a hw g hc
+    simp only [] at h
+    split_ifs at h with hLA
+    · injection h with h; subst h
+      refine ⟨by rw [vadd_length, hl], fun i hi => ?_⟩
+      rw [vadd_getD _ _ _ (by rw [hl]; exact hi), hv i hi, vsmul_getD, column_getD _ _ _ _ hi]
+      unfold fextSpec
+      rw [if_pos hLA.1]
+      ring
+    · injection h with h; subst h
+      refine ⟨hl, fun i hi => ?_⟩
+      rw [hv i hi]
+      unfold fextSpec
+      by_cases h2 : 2 ∈ a.E
+      · have : a.LA = 0 := by
+          by_contra hne
+          exact hLA ⟨h2, hne⟩
+        rw [if_pos h2, this]; ring
+      · rw [if_neg h2, sub_zero]
 
 end fextspec
 
@@ -1168,11 +1242,13 @@ def incPart (a : FextIn K) (i : Nat) : K :=
   ptShape a.forcesInc (up a.E i) + axShape a (up a.E i) + a.Pinc * prShape a (up a.E i)
   - (if 0 ∈ a.E then a.uTM * a.k0uk.toFun i 0 else 0)
   + (if a.pdT then -(a.thetaT * a.k0uk.toFun i 1) else a.Tinc / a.r2 * rowAt a.g00 1 (up a.E i))
+  - (if 2 ∈ a.E then a.LA * a.k0uk.toFun i 2 else 0)
 
 theorem fextSpec_eq_const_inc (a : FextIn K) (i : Nat) : fextSpec a i = constPart a i + a.inc * incPart a i := by
-  unfold fextSpec constPart incPart ptShape
+  unfold fextSpec fextSpecCore constPart incPart ptShape
   rw [tmpSpec_eq]
-  by_cases h0 : 0 ∈ a.E <;> by_cases hT : a.pdT = true <;> simp only [h0, hT, if_true, if_false, Bool.false_eq_true] <;> ring
+  by_cases h0 : 0 ∈ a.E <;> by_cases hT : a.pdT = true <;> by_cases h2 : 2 ∈ a.E <;>
+    simp only [h0, hT, h2, if_true, if_false, Bool.false_eq_true] <;> ring
 
 /-- the loads `calc_fext` reads -/
 structure Loads (K : Type) where
@@ -1185,11 +1261,12 @@ structure Loads (K : Type) where
   Tinc : K
   uTM : K
   thetaT : K
+  LA : K
 
 /-- the same shell / model / prescribed set, other loads -/
 def withLoads (fr : FextIn K) (ld : Loads K) : FextIn K :=
   { fr with forces := ld.forces, forcesInc := ld.forcesInc, Nxxtop := ld.Nxxtop, P := ld.P, Pinc := ld.Pinc,
-            T := ld.T, Tinc := ld.Tinc, uTM := ld.uTM, thetaT := ld.thetaT }
+            T := ld.T, Tinc := ld.Tinc, uTM := ld.uTM, thetaT := ld.thetaT, LA := ld.LA }
 
 /-- entry-wise sum of two arrays, the shorter one padded with zeros -/
 def vaddMax (x y : List K) : List K := vecOf (max x.length y.length) fun i => x.getD i 0 + y.getD i 0
@@ -1199,12 +1276,12 @@ def scaleForce (c : K) (f : PointForce K) : PointForce K := ⟨c * f.fx, c * f.f
 /-- superposition of two load sets (point forces are collected, everything else adds) -/
 def Loads.add (x y : Loads K) : Loads K :=
   ⟨x.forces ++ y.forces, x.forcesInc ++ y.forcesInc, vaddMax x.Nxxtop y.Nxxtop, x.P + y.P, x.Pinc + y.Pinc,
-   x.T + y.T, x.Tinc + y.Tinc, x.uTM + y.uTM, x.thetaT + y.thetaT⟩
+   x.T + y.T, x.Tinc + y.Tinc, x.uTM + y.uTM, x.thetaT + y.thetaT, x.LA + y.LA⟩
 
 /-- a load set scaled by `c` -/
 def Loads.smul (x : Loads K) (c : K) : Loads K :=
   ⟨x.forces.map (scaleForce c), x.forcesInc.map (scaleForce c), x.Nxxtop.map (c * ·), c * x.P, c * x.Pinc,
-   c * x.T, c * x.Tinc, c * x.uTM, c * x.thetaT⟩
+   c * x.T, c * x.Tinc, c * x.uTM, c * x.thetaT, c * x.LA⟩
 
 theorem vaddMax_getD (x y : List K) (i : Nat) : (vaddMax x y).getD i 0 = x.getD i 0 + y.getD i 0 := by
   unfold vaddMax
@@ -1269,8 +1346,8 @@ theorem incPart_add (fr : FextIn K) (x y : Loads K) (i : Nat) :
     incPart (withLoads fr (x.add y)) i = incPart (withLoads fr x) i + incPart (withLoads fr y) i := by
   simp only [incPart, prShape_withLoads, axShape_add]
   simp only [withLoads, Loads.add, ptShape_append]
-  by_cases hT : fr.pdT = true <;> by_cases h0 : 0 ∈ fr.E <;>
-    simp only [hT, h0, if_true, if_false, Bool.false_eq_true] <;> ring
+  by_cases hT : fr.pdT = true <;> by_cases h0 : 0 ∈ fr.E <;> by_cases h2 : 2 ∈ fr.E <;>
+    simp only [hT, h0, h2, if_true, if_false, Bool.false_eq_true] <;> ring
 
 theorem constPart_smul (fr : FextIn K) (c : K) (x : Loads K) (i : Nat) :
     constPart (withLoads fr (x.smul c)) i = c * constPart (withLoads fr x) i := by
@@ -1282,8 +1359,8 @@ theorem incPart_smul (fr : FextIn K) (c : K) (x : Loads K) (i : Nat) :
     incPart (withLoads fr (x.smul c)) i = c * incPart (withLoads fr x) i := by
   simp only [incPart, prShape_withLoads, axShape_smul]
   simp only [withLoads, Loads.smul, ptShape_scale]
-  by_cases hT : fr.pdT = true <;> by_cases h0 : 0 ∈ fr.E <;>
-    simp only [hT, h0, if_true, if_false, Bool.false_eq_true] <;> ring
+  by_cases hT : fr.pdT = true <;> by_cases h0 : 0 ∈ fr.E <;> by_cases h2 : 2 ∈ fr.E <;>
+    simp only [hT, h0, h2, if_true, if_false, Bool.false_eq_true] <;> ring
 
 
 theorem WF_add (fr : FextIn K) (x y : Loads K) (hx : WF (withLoads fr x)) (hy : WF (withLoads fr y)) :
@@ -1410,10 +1487,16 @@ set_option linter.unusedSimpArgs false
 
 theorem calcFext_ok_of (a : FextIn K) (h : ¬ (a.P + a.inc * a.Pinc ≠ 0 ∧ (!a.clpt) = true ∧ a.fsdt = true)) :
     ∃ f, calcFext a = .ok f := by
+  have hc : ∃ g, calcFextCore a = .ok g := by
+    unfold calcFextCore
+    simp only []
+    rw [if_neg h]
+    exact ⟨_, rfl⟩
+  obtain ⟨g, hg⟩ := hc
   unfold calcFext
+  rw [hg]
   simp only []
-  rw [if_neg h]
-  exact ⟨_, rfl⟩
+  split_ifs <;> exact ⟨_, rfl⟩
 
 /-- what the solution of the system handed to `solve` satisfies on the rows of the free amplitudes -/
 theorem static_rows_aux (num0 n : Nat) (E : List Nat) (ck : List K) (k : Coo K) (cu f : List K)
@@ -1436,23 +1519,74 @@ theorem static_rows_aux (num0 n : Nat) (E : List Nat) (ck : List K) (k : Coo K) 
     ring) i hi
   rw [this, hfu i hi]
 
+/-- the loads alone (no prescribed-amplitude terms) at load factor 1, entry of the free amplitude `up E i` -/
+def loadShape (a : FextIn K) (i : Nat) : K :=
+  ptShape a.forces (up a.E i) + ptShape a.forcesInc (up a.E i) + axShape a (up a.E i)
+  + (a.P + a.Pinc) * prShape a (up a.E i)
+  + (if a.pdT then 0 else (a.T + a.Tinc) / a.r2 * rowAt a.g00 1 (up a.E i))
+
+/-- sum over the prescribed amplitudes `_rebuild` produces -/
+theorem presc_sum (pdC pdT : Bool) (uTM thetaT LA : K) (E : List Nat) (ck : List K)
+    (hex : excludedDofs pdC pdT true uTM thetaT LA = some (E, ck)) (g : Nat → K) :
+    ((E.zip ck).map fun q => g q.1 * q.2).sum =
+      (if 0 ∈ E then g 0 * uTM else 0) + (if 1 ∈ E then g 1 * thetaT else 0) + (if 2 ∈ E then g 2 * LA else 0) := by
+  unfold excludedDofs at hex
+  simp only [if_true, Option.some.injEq, Prod.mk.injEq] at hex
+  obtain ⟨hE, hck⟩ := hex
+  subst hE; subst hck
+  cases pdC <;> cases pdT <;> simp [add_assoc]
+
+/-- The linear static solution satisfies the rows of the FULL system `K c = f` that belong to the free amplitudes, with
+`f` the loads alone: `calc_fext(inc = 1)` carries ALL prescribed-displacement terms (`uTM`, `thetaTrad`, `LA`). -/
+theorem static_rhs_aux (num0 n : Nat) (pdC pdT : Bool) (k : Coo K) (cu f : List K) (a : FextIn K)
+    (E : List Nat) (ck : List K) (hex : excludedDofs pdC pdT true a.uTM a.thetaT a.LA = some (E, ck))
+    (haE : a.E = E) (hpdT : a.pdT = pdT) (hk : a.k0uk = (excludeDofsMatrix num0 E n k).kuk) (hn : a.size = n)
+    (hnum : 3 ≤ num0) (hw : WF a) (hcu : cu.length + E.length = n)
+    (hf : calcFext { a with inc := 1 } = .ok f)
+    (hsolve : ∀ i, i < cu.length →
+      sumTo cu.length (fun j => (excludeDofsMatrix num0 E n k).kuu.toFun i j * cu.getD j 0) = f.getD i 0) :
+    ∀ i, i < cu.length →
+      sumTo n (fun j => k.toFun (up E i) j * (calcFullC n E ck 1 cu).getD j 0) = loadShape a i := by
+  subst haE; subst hpdT
+  obtain ⟨E', ck', hex', hasc, h2, hck, hlt, h0iff, h1iff, _⟩ := excludedDofs_admitted_aux pdC a.pdT a.uTM a.thetaT a.LA
+  rw [hex] at hex'
+  simp only [Option.some.injEq, Prod.mk.injEq] at hex'
+  obtain ⟨rfl, rfl⟩ := hex'
+  have hb : ∀ e ∈ a.E, e < n := fun e he => by have := hw.bound e he; omega
+  have hne : a.E ≠ [] := fun h => by rw [h] at h2; simp at h2
+  intro i hi
+  rw [static_rows_aux num0 n a.E ck k cu f hasc hb (fun e he => by have := hlt e he; omega) hck hcu hne hsolve i hi]
+  have hw1 : WF { a with inc := 1 } := ⟨hw.asc, hw.bound, hw.dofs, hw.forces, hw.g00⟩
+  have hi' : i < ({ a with inc := 1 } : FextIn K).size - ({ a with inc := 1 } : FextIn K).E.length := by
+    show i < a.size - a.E.length
+    rw [hn]; omega
+  obtain ⟨_, hv⟩ := calcFext_spec _ hw1 f hf
+  rw [hv i hi', fextSpec_eq_const_inc,
+    presc_sum pdC a.pdT a.uTM a.thetaT a.LA a.E ck hex (fun q => (excludeDofsMatrix num0 a.E n k).kuk.toFun i q)]
+  have hax : axShape { a with inc := 1 } (up a.E i) = axShape a (up a.E i) := rfl
+  have hpr : prShape { a with inc := 1 } (up a.E i) = prShape a (up a.E i) := rfl
+  unfold constPart incPart loadShape
+  simp only [hax, hpr, one_mul, ← hk]
+  have h1 : (1 ∈ a.E) ↔ a.pdT = true := h1iff
+  by_cases h0 : 0 ∈ a.E <;> by_cases hT : a.pdT = true <;>
+    simp only [h0, h2, hT, h1, if_true, if_false, Bool.false_eq_true] <;> ring
+
 end cex
 
 /-! ### concrete witnesses (over ℚ) -/
 
-theorem kkk_counterexample_aux :
+/-- the former witness of the `kkk` defect now gives the documented block: for `diag(1,2,3)` with `{1, 2}` prescribed
+`kkk` is 2×2 with `kkk₀₀ = K₁₁ = 2`, `kkk₁₁ = K₂₂ = 3` -/
+theorem kkk_instance_aux :
     let k : Coo ℚ := [(0, 0, 1), (1, 1, 2), (2, 2, 3)]
     let E : List Nat := [1, 2]
-    E.Pairwise (· < ·) ∧ (∀ e ∈ E, e < 3) ∧
-      (excludeDofsMatrix 3 E 3 k).shapeKK = (1, 1) ∧
-      (excludeDofsMatrix 3 E 3 k).kkk.toFun 0 0 = k.toFun 0 0 ∧ k.toFun 0 0 = 1 ∧ k.toFun 1 1 = 2 := by
+    (excludeDofsMatrix 3 E 3 k).shapeKK = (2, 2) ∧
+      (excludeDofsMatrix 3 E 3 k).kkk.toFun 0 0 = 2 ∧ (excludeDofsMatrix 3 E 3 k).kkk.toFun 1 1 = 3 ∧
+      (excludeDofsMatrix 3 E 3 k).kkk.toFun 0 1 = 0 := by
   intro k E
   have hasc : E.Pairwise (· < ·) := by simp [E]
-  refine ⟨hasc, by simp [E], rfl, ?_, ?_, ?_⟩
-  · rw [kkk_entry_aux 3 3 E hasc]
-    simp [E, up, skip]
-  · simp [k, Coo.toFun]
-  · simp [k, Coo.toFun]
+  have hnum : ∀ e ∈ E, e < 3 := by simp [E]
+  refine ⟨rfl, ?_, ?_, ?_⟩ <;> rw [kkk_entry_aux 3 3 E hasc hnum] <;> simp [E, k, Coo.toFun]
 
 /-- a reduced matrix with a null row that carries load: NO vector satisfies the system -/
 theorem null_row_counterexample_aux :
@@ -1470,7 +1604,7 @@ theorem null_row_counterexample_aux :
 /-- the witness of the torque finding: `v(0,0)` also moves with amplitude 3 (a `cos(jθ)` term, as in the bc3 models) -/
 def torqueWitness : FextIn ℚ :=
   { size := 4, num0 := 3, num1 := 0, num2 := 0, m1 := 0, m2 := 0, n2 := 0, i0 := 0, j0 := 1, dofs := 3, E := [2],
-    forces := [], forcesInc := [], inc := 1, uTM := 0, thetaT := 0, Nxxtop := [0], pi := 3, r2 := 2, cosa := 1,
+    forces := [], forcesInc := [], inc := 1, uTM := 0, thetaT := 0, LA := 0, Nxxtop := [0], pi := 3, r2 := 2, cosa := 1,
     sina := 0, L := 1, bc24 := false, clpt := true, fsdt := false, pdT := false, P := 0, Pinc := 0, T := 6, Tinc := 0,
     g00 := [[1, 0, 0, 0], [0, 2, 0, 1], [0, 0, 0, 0]], k0uk := [] }
 
@@ -1489,12 +1623,13 @@ theorem torque_counterexample_aux :
     norm_num
 
 
-/-- the witness of the load-asymmetry finding: amplitude 2 (prescribed, `LA = 1`) is coupled to the free amplitude 3 -/
+/-- the former witness of the load-asymmetry defect: amplitude 2 (prescribed, `LA = 1`) is coupled to the free
+amplitude 3 (`K₃₂ = 5`) -/
 def laMatrix : Coo ℚ := [(0, 0, 1), (1, 1, 1), (2, 2, 1), (3, 3, 1), (3, 2, 5), (2, 3, 5)]
 
 def laWitness : FextIn ℚ :=
   { size := 4, num0 := 3, num1 := 0, num2 := 0, m1 := 0, m2 := 0, n2 := 0, i0 := 0, j0 := 1, dofs := 3, E := [1, 2],
-    forces := [], forcesInc := [], inc := 1, uTM := 0, thetaT := 0, Nxxtop := [0], pi := 3, r2 := 2, cosa := 1,
+    forces := [], forcesInc := [], inc := 1, uTM := 0, thetaT := 0, LA := 1, Nxxtop := [0], pi := 3, r2 := 2, cosa := 1,
     sina := 0, L := 1, bc24 := false, clpt := true, fsdt := false, pdT := true, P := 0, Pinc := 0, T := 0, Tinc := 0,
     g00 := [[1, 0, 0, 0], [0, 2, 0, 0], [0, 0, 0, 0]], k0uk := (excludeDofsMatrix 3 [1, 2] 4 laMatrix).kuk }
 
@@ -1502,29 +1637,32 @@ theorem laWitness_WF : WF laWitness := by
   refine ⟨by simp [laWitness], by simp [laWitness], Or.inl rfl, by simp [laWitness], ?_⟩
   simp [laWitness]
 
-/-- no load at all, prescribed rotation 0, load-asymmetry amplitude `LA = 1`: the right-hand side handed to the
-solver is zero, the exact solution of the reduced system is zero, and the row of the free amplitude 3 of the full
-system reads `5 = 0`. -/
-theorem static_rhs_counterexample_aux :
-    ∃ f, staticLinear (fun _ f => f.map fun _ => 0) false true (excludeDofsMatrix 3 [1, 2] 4 laMatrix).kuu laWitness
-        = .ok (((excludeDofsMatrix 3 [1, 2] 4 laMatrix).kuu, f), ([1], [f.map fun _ => 0])) ∧
-      f.length = 2 ∧ (∀ i, i < 2 → f.getD i 0 = 0) ∧
-      sumTo 4 (fun j => laMatrix.toFun (up [1, 2] 1) j * (calcFullC 4 [1, 2] [0, 1] 1 [0, 0]).getD j 0) = 5 := by
+/-- no load at all, prescribed rotation 0, load-asymmetry amplitude `LA = 1`: the right-hand side handed to the solver
+is `[0, −5]` (the term `−LA·K_uk[:,2]`), and with the exact solution `[0, −5]` of the reduced system (`K_uu = I`) the row of
+the free amplitude 3 of the full system reads `5·1 + 1·(−5) = 0`: satisfied. -/
+theorem static_la_instance_aux :
+    ∃ f, staticLinear (fun _ f => f) false true (excludeDofsMatrix 3 [1, 2] 4 laMatrix).kuu laWitness
+        = .ok (((excludeDofsMatrix 3 [1, 2] 4 laMatrix).kuu, f), ([1], [f])) ∧
+      f.length = 2 ∧ f.getD 0 0 = 0 ∧ f.getD 1 0 = -5 ∧
+      sumTo 4 (fun j => laMatrix.toFun (up [1, 2] 1) j * (calcFullC 4 [1, 2] [0, 1] 1 [0, -5]).getD j 0) = 0 := by
   obtain ⟨f, hf⟩ := calcFext_ok_of { laWitness with inc := 1 } (by simp [laWitness])
   have hw : WF { laWitness with inc := 1 } := laWitness_WF
   obtain ⟨hl, hv⟩ := fext_const_inc_aux _ hw f hf
-  refine ⟨f, ?_, hl, ?_, ?_⟩
-  · unfold staticLinear
-    simp only [Bool.false_eq_true, if_false, Bool.not_true]
-    rw [hf]
-  · intro i hi
+  have e1 : ∀ i j, laWitness.k0uk.toFun i j = if j < 3 then laMatrix.toFun (up [1, 2] i) j else 0 := fun i j =>
+    kuk_entry_aux 3 4 [1, 2] (by simp) laMatrix i j
+  have hval : ∀ i, i < 2 → f.getD i 0 = -(laWitness.k0uk.toFun i 2) := by
+    intro i hi
     have hi' : i < ({ laWitness with inc := 1 } : FextIn ℚ).size - ({ laWitness with inc := 1 } : FextIn ℚ).E.length := hi
     rw [hv i hi']
-    have e1 : ∀ i, laWitness.k0uk.toFun i 1 = if (1:Nat) < 3 then laMatrix.toFun (up [1, 2] i) 1 else 0 := fun i =>
-      kuk_entry_aux 3 4 [1, 2] (by simp) laMatrix i 1
     have : i = 0 ∨ i = 1 := by omega
     rcases this with rfl | rfl <;>
       simp [constPart, incPart, ptShape, prShape, axShape, laWitness]
+  refine ⟨f, ?_, hl, ?_, ?_, ?_⟩
+  · unfold staticLinear
+    simp only [Bool.false_eq_true, if_false, Bool.not_true]
+    rw [hf]
+  · rw [hval 0 (by omega), e1]; simp [up, skip, laMatrix, Coo.toFun]
+  · rw [hval 1 (by omega), e1]; simp [up, skip, laMatrix, Coo.toFun]
   · simp [sumTo, List.range_succ, calcFullC, up, skip, laMatrix, Coo.toFun, List.mergeSort]
 
 
@@ -1543,7 +1681,8 @@ theorem fext_torque_partial_aux (a : FextIn K) (hr : a.r2 ≠ 0) (hpdT : a.pdT =
     constPart a i + a.inc * incPart a i =
       (ptShape a.forces (up a.E i) + a.P * prShape a (up a.E i))
       + a.inc * (ptShape a.forcesInc (up a.E i) + axShape a (up a.E i) + a.Pinc * prShape a (up a.E i)
-          - (if 0 ∈ a.E then a.uTM * a.k0uk.toFun i 0 else 0))
+          - (if 0 ∈ a.E then a.uTM * a.k0uk.toFun i 0 else 0)
+          - (if 2 ∈ a.E then a.LA * a.k0uk.toFun i 2 else 0))
       + (a.T + a.inc * a.Tinc) * (if up a.E i = 1 then 1 else 0) := by
   unfold constPart incPart
   rw [hg]
@@ -1574,7 +1713,7 @@ end axial
 (amplitudes 3, 4 are the `sin θ` / `cos θ` terms of `u`), edge load `Nxxtop = [0, 7, 0]` (a pure `sin θ` harmonic) -/
 def harmonicsWitness (bc24 : Bool) : FextIn ℚ :=
   { size := 9, num0 := 3, num1 := 0, num2 := 6, m1 := 0, m2 := 1, n2 := 1, i0 := 0, j0 := 1, dofs := 3, E := [1, 2],
-    forces := [], forcesInc := [], inc := 1, uTM := 0, thetaT := 0, Nxxtop := [0, 7, 0], pi := 3, r2 := 2, cosa := 1,
+    forces := [], forcesInc := [], inc := 1, uTM := 0, thetaT := 0, LA := 0, Nxxtop := [0, 7, 0], pi := 3, r2 := 2, cosa := 1,
     sina := 0, L := 1, bc24 := bc24, clpt := true, fsdt := false, pdT := true, P := 0, Pinc := 0, T := 0, Tinc := 0,
     g00 := [[1, 0, 0, 0, 1, 0, 0, 0, 0], [0, 2, 0, 0, 0, 0, 0, 0, 0], [0, 0, 0, 0, 0, 0, 0, 0, 0]], k0uk := [] }
 
